@@ -40,14 +40,17 @@ def run_stream(run, comp, cases, rundir, name, case_type, code_fn, prop_bits, co
     for case, err, tb in impl_errors[:max_report]:
         run.violation({"stream": label, "kind": "implementation raised on a valid input", "error": err,
                        "traceback": tb, "case": comp.jsonable(case)})
-    for idx in sorted(badmap):
+    def _is(code, which):
+        return any(code >> k & 1 for k in which)
+    # failing inputs (a verified checker rejects an implementation output) are reported first;
+    # correspondence-only disagreements are reported only when no failing input was found
+    order = [i for i in sorted(badmap) if _is(badmap[i], prop_bits)]
+    order += [i for i in sorted(badmap) if not _is(badmap[i], prop_bits) and _is(badmap[i], corr_bits)]
+    for idx in order:
         code = badmap[idx]
         bits = [k for k in range(16) if code >> k & 1]
         case, res = kept[idx], results[idx]
-        is_prop = any(k in prop_bits for k in bits)
-        is_corr = any(k in corr_bits for k in bits)
-        if not (is_prop or is_corr):
-            continue                      # a checker of another property: not ours to report
+        is_prop = _is(code, prop_bits)
         if is_prop:
             n_prop += 1
             if n_prop > max_report:
